@@ -29,7 +29,8 @@ struct Song
     int division;
     bool running_status;
     std::vector<STrack> tracks;
-    Song(): format(1), division(96), running_status(false) {}
+    int hmi_track;               // track holding the file's single CC110 (taken by the sequencer as a loop start marker), or -1
+    Song(): format(1), division(96), running_status(false), hmi_track(-1) {}
 };
 
 struct SongOpts
@@ -43,9 +44,10 @@ struct SongOpts
     bool big_deltas;
     bool allow_cc_special;       // bank select etc.
     int force_division;          // 0 = random
+    int game_ccs;                // 0: none; 1: controllers 112..119 of game MIDI dialects appear as plain controllers; 2: and exactly one CC110 (no CC111)
     bool restrikes;              // legato re-strikes of several held keys in one tick (note-offs and note-ons of the same keys together)
     SongOpts(): min_tracks(1), max_tracks(8), max_events(40), tempo_changes(true), loops(false), lone_eot(true),
-        sysex_meta(true), big_deltas(false), allow_cc_special(true), force_division(0), restrikes(true) {}
+        sysex_meta(true), big_deltas(false), allow_cc_special(true), force_division(0), game_ccs(0), restrikes(true) {}
 };
 
 static inline SEv mk_chan(uint64_t tick, uint8_t status, int d0, int d1 = -1)
@@ -141,6 +143,7 @@ static inline Song gen_song(Rng &r, const SongOpts &o)
                 static const int ccs[] = {1, 7, 10, 11, 64, 66, 67, 91, 93, 74, 5, 65, 6, 38, 100, 101, 98, 99, 120, 121, 123, 2, 3, 12, 80};
                 int cc = r.pick(ccs);
                 if(o.allow_cc_special && r.chance(0.1)) cc = r.chance(0.5) ? 0 : 32;
+                if(o.game_ccs && r.chance(0.25)) cc = r.chance(0.5) ? 113 : r.range(112, 119);
                 e = mk_chan(tick, 0xB0 | ch, cc, r.range(0, 127));
             }
             else if(kind < 66) e = mk_chan(tick, 0xC0 | ch, r.range(0, 127));
@@ -188,6 +191,15 @@ static inline Song gen_song(Rng &r, const SongOpts &o)
         if(o.lone_eot && r.chance(0.4)) tick += (uint32_t)r.range(1, s.division * 4);
         SEv eot = mk_meta(tick, 0x2F, std::vector<uint8_t>()); eot.serial = serial++;
         tr.ev.push_back(eot);
+    }
+    if(o.game_ccs == 2)
+    {   // the one CC110 of the file, anywhere before some track's End of Track
+        int t = (int)r.below((uint32_t)nt);
+        STrack &tr = s.tracks[(size_t)t];
+        size_t at = r.below((uint32_t)tr.ev.size());
+        SEv e = mk_chan(tr.ev[at].tick, 0xB0 | (uint8_t)(t % 8), 110, r.range(0, 127)); e.serial = 100000;
+        tr.ev.insert(tr.ev.begin() + (long)at, e);
+        s.hmi_track = t;
     }
     return s;
 }
